@@ -159,6 +159,26 @@ pub fn check_synth(ctx: &Ctx, genome: &[u16]) -> CaseReport {
         match mg.below(12) {
             0 => { files.remove(&k); classes.push(format!("drop-file:{}", k.rsplit('/').next().unwrap_or(&k).split('.').last().unwrap_or(""))); }
             1 => { let soup: String = (0..1 + mg.below(30)).map(|_| format!("{} ", mg.pick(LEXICON))).collect(); files.insert("M0.ufo/features.fea".into(), soup); classes.push("fea-token-soup".into()); }
+            3 => { // a numeric fontinfo field of some master becomes a number that is not one
+                let infos: Vec<String> = files.keys().filter(|k| k.ends_with("fontinfo.plist")).cloned().collect();
+                if !infos.is_empty() {
+                    let fi = infos[mg.below(infos.len())].clone();
+                    let t = files[&fi].clone();
+                    let keys: Vec<usize> = t.match_indices("<key>").map(|(i, _)| i).collect();
+                    let numeric: Vec<usize> = keys.iter().copied().filter(|i| { let rest = &t[*i..]; rest.find("</key>").map(|e| rest[e + 6..].trim_start().starts_with("<integer>") || rest[e + 6..].trim_start().starts_with("<real>")).unwrap_or(false) }).collect();
+                    if !numeric.is_empty() {
+                        let at = if mg.chance(1, 3) { numeric[0] } else { numeric[mg.below(numeric.len())] }; // the first numeric key is unitsPerEm
+                        let key_end = at + t[at..].find("</key>").unwrap() + 6;
+                        let val_start = key_end + t[key_end..].find('<').unwrap();
+                        let val_end = val_start + t[val_start..].find("</").unwrap(); let val_end = val_end + t[val_end..].find('>').unwrap() + 1;
+                        let key = t[at + 5..key_end - 6].to_string();
+                        let bad = if mg.chance(1, 2) { *mg.pick(&["nan", "NaN", "inf", "-inf"]) } else { *mg.pick(&["1e400", "0", "-1", "15", "16385", "70000", "-70000", "1e9", "0.5", ""]) };
+                        let mut nt = t.clone(); nt.replace_range(val_start..val_end, &format!("<real>{bad}</real>"));
+                        files.insert(fi, nt);
+                        classes.push(format!("fontinfo-number:{key}"));
+                    }
+                }
+            }
             2 => { // include graphs next to the UFO: self-include of a non-root file, mutual includes, missing file
                 let shape = mg.below(4);
                 files.insert("M0.ufo/features.fea".into(), "languagesystem DFLT dflt;\ninclude(shared.fea);\n".into());
